@@ -701,7 +701,7 @@ def full_stack_nested_loss(ctx, thorough):
     import fullstack
     texts = {5: b"ER05 compressor", 7: b"ER07 fan locked"}
     for gen in (4, 5):
-        for delay in ((0, 1, 2, 3, 5, 10, 40) if thorough else (0, 1, 3, 10)):
+        for delay in ((0, 1, 2, 3, 5, 10, 20) if thorough else (0, 1, 3, 10)):      # (a callback that takes 5 s or more would hold up init() itself)
             for lat in (0, 2, 4, 9):
                 # connecting takes `lat` ticks: the console's error changes again one tick after the loss, i.e. before the refresh; with an
                 # immediate reconnection (lat 0) it changes ten ticks later and the console pushes the new status itself
